@@ -93,6 +93,11 @@ void read_adjacency_data(const boost::filesystem::path &filename,
         // TO DO: might use tuple later on
         size_t current_edge_in, current_edge_out;
         is >> current_edge_in >> current_edge_out;
+        // skip lines without two vertex labels (blank-only lines, a lone carriage return, ...)
+        if (is.fail())
+        {
+            continue;
+        }
 
         // Read the rest of the data
         weight_t value;
